@@ -1,5 +1,5 @@
 import CollectionsC.Properties.C01Sized
-import CollectionsC.Proofs.ArraySized7
+import CollectionsC.Proofs.ArraySized8
 /-! # C18 (sized array part) — sorting yields an ordered permutation
 
 Statements only, relative to the `qsort` contract: `cc_array_sized_sort` hands the buffer, the
@@ -30,5 +30,26 @@ theorem sort_configuration (a : ArraySized) (sortFn : List Elem → List Elem) (
 theorem sort_identity_le_one (a : ArraySized) (sortFn : List Elem → List Elem) (h : a.Inv)
     (hperm : ∀ l, (sortFn l).Perm l) (h1 : a.size ≤ 1) : (a.sort sortFn).abs = a.abs :=
   sort_le_one a sortFn h hperm h1
+
+/-! Non-vacuity of the `qsort` contract: `List.mergeSort` with the total preorder "first byte ≤ first
+byte" (not injective: ties) returns a permutation that is pairwise ordered, i.e. satisfies `hperm`
+and `hsorted` (with `gt x y := ¬ le x y`). -/
+example : ∀ l : List Elem, (l.mergeSort (fun x y => decide (x.headD 0 ≤ y.headD 0))).Perm l :=
+  fun l => List.mergeSort_perm l _
+example : ∀ l : List Elem, (l.mergeSort (fun x y => decide (x.headD 0 ≤ y.headD 0))).Pairwise
+    (fun x y => ¬ ¬ (decide (x.headD 0 ≤ y.headD 0) = true)) := by
+  intro l
+  have := List.pairwise_mergeSort (le := fun (x y : Elem) => decide (x.headD 0 ≤ y.headD 0))
+    (by intro a b c h1 h2; simp only [decide_eq_true_eq] at *; omega)
+    (by intro a b; simp only [Bool.or_eq_true, decide_eq_true_eq]; omega) l
+  exact this.imp (fun h hn => hn h)
+
+/-! … and a concrete `Inv` state whose records are put in order (here by a rearranging `sortFn` that
+`decide` can evaluate): the write-back lands every record at `BUF_ADDR(ar, i)` and keeps `Inv`. -/
+example :
+    let a : ArraySized := { dataLen := 2, size := 3, capacity := 4, grow := fun c => 2 * c,
+                            buf := [3, 0, 2, 0, 1, 0, 205, 205] }
+    a.Inv ∧ (a.sort List.reverse).abs = [[1, 0], [2, 0], [3, 0]] ∧ (a.sort List.reverse).Inv ∧
+    (a.sort List.reverse).buf = [1, 0, 2, 0, 3, 0, 205, 205] := by decide
 
 end CC.Properties.C18Sized
